@@ -43,7 +43,7 @@ def run(ctx):
     if ctx.replay:
         cases = [ctx.replay["case"]]
     else:
-        cases = ctx.r2_generate(MODS + ["Gen_Accum"], "Gen_Accum", GEN.format(n=7, cap=cap), simulate=250 if q else 4000, depth=80)
+        cases = ctx.r2_generate(MODS + ["Gen_Accum"], "Gen_Accum", GEN.format(n=7, cap=cap), simulate=250 if q else 12000, depth=80)
     casep = ctx.write_ndjson("cases.ndjson", cases)
     pk = {"accum": ["c15_test.go"]}
     ov = ctx.overlay(pkg_files=pk, replace={"accum/block.go": shrunk} if ok else None)
